@@ -9,19 +9,6 @@ From Mos Require Import model.Utf model.Format Gen.FmtRules spec.FormatSpec proo
 Open Scope nat_scope.
 
 (* ================================================================ stable chunks have one piece *)
-Lemma split_inclusive_cons : forall c r, split_inclusive (c :: r) =
-  if (c =? NL)%N then [c] :: split_inclusive r
-  else match split_inclusive r with [] => [[c]] | p :: ps => (c :: p) :: ps end.
-Proof. reflexivity. Qed.
-
-Lemma split_inclusive_no_nl : forall l, l <> [] -> contains_nl l = false -> split_inclusive l = [l].
-Proof.
-  induction l as [|c r IH]; intros Hne H; [congruence|].
-  cbn [contains_nl existsb] in H. apply orb_false_elim in H as [Hc Hr].
-  rewrite split_inclusive_cons, Hc. destruct r as [|d r']; [reflexivity|].
-  rewrite IH; [reflexivity | congruence | exact Hr].
-Qed.
-
 Lemma split_inclusive_nl_last : forall l, l <> [] -> nl_only_last l = true -> split_inclusive l = [l].
 Proof.
   induction l as [|c r IH]; intros Hne H; [congruence|].
@@ -31,7 +18,7 @@ Proof.
     rewrite split_inclusive_cons, Hc. rewrite IH; [reflexivity | congruence | exact Hr].
 Qed.
 
-Lemma stable_single_piece : forall c, stable_chunk c = true -> split_inclusive (c_str c) = [c_str c].
+Lemma stable_single_split : forall c, stable_chunk c = true -> split_inclusive (c_str c) = [c_str c].
 Proof.
   intros c H. unfold stable_chunk in H. apply andb_prop in H as [Hne H].
   assert (Hn : c_str c <> []) by (destruct (c_str c); [discriminate | congruence]).
@@ -42,6 +29,9 @@ Qed.
 (* ================================================================ replay of the recorded lines *)
 Definition jchunk (o : options) (c : chunk) (e l : bool) (st : jstate) : jstate :=
   join_piece o (c_ty c) e l (set_indent st (c_indent c)) (c_str c).
+
+Lemma stable_single_piece : forall c, stable_chunk c = true -> chunk_pieces c = [c_str c].
+Proof. intros c H. apply chunk_pieces_single. apply stable_single_split. exact H. Qed.
 
 Lemma join_chunk_stable : forall o c e l st, stable_chunk c = true -> join_chunk o c e l st = jchunk o c e l st.
 Proof. intros. unfold join_chunk, jchunk. rewrite stable_single_piece by assumption. reflexivity. Qed.
